@@ -1,4 +1,4 @@
-import Gmx.Lemmas.RolesEffects
+import Gmx.Lemmas.RolesSpec
 /-!
 # C18 — role membership behaves like a set of grants gated by enabled roles
 
@@ -440,6 +440,240 @@ theorem disable_succeeds_iff (s : St K A) (r : K) :
   | some m => cases he : m.enabled <;> simp [he]
   | none => simp
 
+
+/-! ### THE SET SEMANTICS, with success and failure decided from the abstract state alone
+
+`Abs` (created role names, enabled flags, the set of grants, the member list) and `absStep` (in
+`Lemmas/RolesSpec.lean`) never look at the implementation: whether a call succeeds is a function of the
+abstract state (`enable_succeeds_iff` … `disable_succeeds_iff` are what makes that possible). -/
+
+theorem rel_known {s : St K A} {x : Abs K A} (h : Rel s x) (r : K) : knownB s r = true ↔ r ∈ x.created := by
+  rw [h.created]; exact knownB_iff_mem s.roles r
+
+theorem rel_member {s : St K A} {x : Abs K A} (h : Rel s x) (a : A) : memberB s a = true ↔ a ∈ x.members := by
+  rw [h.members]; exact memberB_iff_mem s.members a
+
+/-- one call: the implementation succeeds iff the abstract step does, and the results stay related -/
+theorem abs_simulates (s : St K A) (x : Abs K A) (o : Op K A) (hr : Rel s x) (hi : Inv s) :
+    (∀ s', step s o = .ok s' → ∃ x', absStep x o = some x' ∧ Rel s' x') ∧
+    ((¬ ∃ s', step s o = .ok s') → absStep x o = none) := by
+  have hlenR : x.created.length = s.roles.length := by rw [hr.created]; simp
+  have hlenM : x.members.length = s.members.length := by rw [hr.members]; simp
+  cases o with
+  | enable r =>
+    simp only [step, absStep]
+    constructor
+    · intro s' h
+      have hcond := (enable_succeeds_iff s r).1 ⟨s', h⟩
+      obtain ⟨hm, hE, hG⟩ := enable_effect hi h
+      have hEr : ¬ x.enabled r = true := by rw [hr.enabled r, hcond.1]; simp
+      rw [if_neg hEr]
+      by_cases hk : r ∈ x.created
+      · rw [if_pos hk]
+        refine ⟨_, rfl, ?_, fun r' => ?_, fun a r' => ?_, ?_⟩
+        · -- a known role: the role table keeps its names
+          have hkn := (rel_known hr r).2 hk
+          unfold enableRole at h; unfold knownB at hkn
+          cases hf : findRole s.roles r with
+          | none => rw [hf] at hkn; cases hkn
+          | some m =>
+            rw [hf] at h; simp only at h
+            cases he : m.enabled with
+            | true => simp [he] at h
+            | false =>
+              simp only [he, Bool.false_eq_true, if_false] at h
+              cases h
+              simp only [map_name_setEnabled]; exact hr.created
+        · simp only [setE]; rw [hE r']; by_cases e : r' = r <;> simp [e, hr.enabled]
+        · simp only; rw [hG a r']; exact hr.grants a r'
+        · simp only; rw [hm]; exact hr.members
+      · rw [if_neg hk]
+        have hnk : knownB s r = false := by
+          cases hkb : knownB s r with
+          | false => rfl
+          | true => exact absurd ((rel_known hr r).1 hkb) hk
+        have hlt : x.created.length < 32 := by
+          rcases hcond.2 with h1 | h1
+          · rw [hnk] at h1; cases h1
+          · omega
+        rw [if_pos hlt]
+        refine ⟨_, rfl, ?_, fun r' => ?_, fun a r' => ?_, ?_⟩
+        · unfold enableRole at h; unfold knownB at hnk
+          cases hf : findRole s.roles r with
+          | some m => rw [hf] at hnk; cases hnk
+          | none =>
+            rw [hf] at h; simp only at h
+            by_cases hcap : s.roles.length ≥ MAX_ROLES
+            · simp [hcap] at h
+            · simp only [hcap, if_false] at h
+              cases h
+              simp [hr.created]
+        · simp only [setE]; rw [hE r']; by_cases e : r' = r <;> simp [e, hr.enabled]
+        · simp only; rw [hG a r']; exact hr.grants a r'
+        · simp only; rw [hm]; exact hr.members
+    · intro hno
+      have hcond := mt (enable_succeeds_iff s r).2 hno
+      by_cases hEr : x.enabled r = true
+      · rw [if_pos hEr]
+      · rw [if_neg hEr]
+        have he : enabledB s r = false := by
+          rw [← hr.enabled r]; cases hh : x.enabled r with
+          | false => rfl
+          | true => exact absurd hh hEr
+        have hnk : ¬ r ∈ x.created := fun hk => hcond ⟨he, Or.inl ((rel_known hr r).2 hk)⟩
+        have hnl : ¬ x.created.length < 32 := fun hl => hcond ⟨he, Or.inr (by omega)⟩
+        rw [if_neg hnk, if_neg hnl]
+  | disable r =>
+    simp only [step, absStep]
+    constructor
+    · intro s' h
+      obtain ⟨hm, hE, hG⟩ := disable_effect h
+      have hcond := (disable_succeeds_iff s r).1 ⟨s', h⟩
+      have hroles : s'.roles.map (·.name) = s.roles.map (·.name) := by
+        unfold disableRole at h
+        cases hf : findRole s.roles r with
+        | none => rw [hf] at h; cases h; rfl
+        | some m =>
+          rw [hf] at h; simp only at h
+          cases he : m.enabled with
+          | false => simp [he] at h
+          | true => simp only [he, if_true] at h; cases h; exact map_name_setEnabled _ _ _
+      by_cases hEr : x.enabled r = true
+      · rw [if_pos hEr]
+        refine ⟨_, rfl, by simp only; rw [hroles]; exact hr.created, fun r' => ?_, fun a r' => by simp only; rw [hG a r']; exact hr.grants a r',
+          by simp only; rw [hm]; exact hr.members⟩
+        simp only [setE]; rw [hE r']; by_cases e : r' = r <;> simp [e, hr.enabled]
+      · rw [if_neg hEr]
+        have he : enabledB s r = false := by
+          rw [← hr.enabled r]; cases hh : x.enabled r with
+          | false => rfl
+          | true => exact absurd hh hEr
+        have hnk : ¬ r ∈ x.created := by
+          intro hk
+          rcases hcond with h1 | h1
+          · rw [he] at h1; cases h1
+          · rw [(rel_known hr r).2 hk] at h1; cases h1
+        rw [if_neg hnk]
+        refine ⟨_, rfl, by rw [hroles]; exact hr.created, fun r' => ?_, fun a r' => by rw [hG a r']; exact hr.grants a r',
+          by rw [hm]; exact hr.members⟩
+        rw [hE r']; by_cases e : r' = r
+        · subst e; simp [hr.enabled, he]
+        · simp [e, hr.enabled]
+    · intro hno
+      have hcond := mt (disable_succeeds_iff s r).2 hno
+      have he : ¬ x.enabled r = true := fun hh => hcond (Or.inl (by rw [← hr.enabled r]; exact hh))
+      have hk : r ∈ x.created := by
+        cases hkb : knownB s r with
+        | true => exact (rel_known hr r).1 hkb
+        | false => exact absurd (Or.inr hkb) hcond
+      rw [if_neg he, if_pos hk]
+  | grant a r =>
+    simp only [step, absStep]
+    constructor
+    · intro s' h
+      have hcond := (grant_succeeds_iff s a r).1 ⟨s', h⟩
+      obtain ⟨hroles, hG⟩ := grant_effect hi h
+      have hc : x.enabled r = true ∧ x.grants a r = false ∧ (a ∈ x.members ∨ x.members.length < 64) := by
+        refine ⟨by rw [hr.enabled]; exact hcond.1, by rw [hr.grants]; exact hcond.2.1, ?_⟩
+        rcases hcond.2.2 with h1 | h1
+        · exact Or.inl ((rel_member hr a).1 h1)
+        · exact Or.inr (by omega)
+      rw [if_pos hc]
+      refine ⟨_, rfl, by simp only; rw [hroles]; exact hr.created, fun r' => by simp only; unfold enabledB; rw [hroles]; exact hr.enabled r',
+        fun a' r' => ?_, ?_⟩
+      · simp only [setG]; rw [hG a' r']; by_cases e : a' = a ∧ r' = r <;> simp [e, hr.grants]
+      · obtain ⟨m, _, _, hcase⟩ := grant_ok_shape h
+        rcases hcase with ⟨bits, hl, _, rfl⟩ | ⟨hl, _, rfl⟩
+        · have hm : a ∈ x.members := (rel_member hr a).1 (by simp [memberB, hl])
+          simp only [hm, if_true, map_fst_setBits]; exact hr.members
+        · have hm : ¬ a ∈ x.members := fun hm => by
+            have := (rel_member hr a).2 hm; simp [memberB, hl] at this
+          simp only [hm, if_false, List.map_append, List.map_cons, List.map_nil]; rw [hr.members]
+    · intro hno
+      have hcond := mt (grant_succeeds_iff s a r).2 hno
+      have : ¬ (x.enabled r = true ∧ x.grants a r = false ∧ (a ∈ x.members ∨ x.members.length < 64)) := by
+        rintro ⟨h1, h2, h3⟩
+        apply hcond
+        refine ⟨by rw [← hr.enabled]; exact h1, by rw [← hr.grants]; exact h2, ?_⟩
+        rcases h3 with h3 | h3
+        · exact Or.inl ((rel_member hr a).2 h3)
+        · exact Or.inr (by omega)
+      rw [if_neg this]
+  | revoke a r =>
+    simp only [step, absStep]
+    constructor
+    · intro s' h
+      have hcond := (revoke_succeeds_iff s a r).1 ⟨s', h⟩
+      obtain ⟨hroles, hG⟩ := revoke_effect hi h
+      have hi' : Inv s' := inv_step (o := .revoke a r) hi h
+      rw [if_pos (by rw [hr.grants]; exact hcond)]
+      have hGrel : ∀ a' r', setG x.grants a r false a' r' = grantedB s' a' r' := by
+        intro a' r'
+        simp only [setG]; rw [hG a' r']; by_cases e : a' = a ∧ r' = r <;> simp [e, hr.grants]
+      refine ⟨_, rfl, by simp only; rw [hroles]; exact hr.created, fun r' => by simp only; unfold enabledB; rw [hroles]; exact hr.enabled r',
+        hGrel, ?_⟩
+      -- the address stays a member iff it still holds some role
+      have hmem : (∃ r', setG x.grants a r false a r' = true) ↔ memberB s' a = true := by
+        rw [member_iff_holds s' a hi']
+        constructor
+        · rintro ⟨r', h1⟩; exact ⟨r', by rw [← hGrel]; exact h1⟩
+        · rintro ⟨r', h1⟩; exact ⟨r', by rw [hGrel]; exact h1⟩
+      obtain ⟨m, bits, _, hl, _, hcase⟩ := revoke_ok_shape h
+      rcases hcase with ⟨_, rfl⟩ | ⟨_, rfl⟩
+      · have hnm : ¬ ∃ r', setG x.grants a r false a r' = true := by
+          rw [hmem]; simp [memberB, lookup_removeMember]
+        simp only [hnm, if_false, map_fst_removeMember]; rw [hr.members]
+      · have hm : ∃ r', setG x.grants a r false a r' = true := by
+          rw [hmem]; simp [memberB, lookup_setBits, hl]
+        simp only [hm, if_true, map_fst_setBits]; exact hr.members
+    · intro hno
+      have hcond := mt (revoke_succeeds_iff s a r).2 hno
+      rw [if_neg (by rw [hr.grants]; exact hcond)]
+
+/-- the relation is kept by whole histories (a failing call changes neither side) -/
+theorem abs_run_related (ops : List (Op K A)) : ∀ (s : St K A) (x : Abs K A), Rel s x → Inv s →
+    Rel (run s ops) (absRun x ops) := by
+  induction ops with
+  | nil => intro s x hr _; exact hr
+  | cons o os ih =>
+    intro s x hr hi
+    simp only [run, absRun]
+    apply ih _ _ _ (inv_apply o hi)
+    obtain ⟨h1, h2⟩ := abs_simulates s x o hr hi
+    unfold apply absApply
+    cases hs : step s o with
+    | ok s' =>
+      obtain ⟨x', hx, hrel⟩ := h1 s' hs
+      simp only [hx, Option.getD_some]; exact hrel
+    | error e =>
+      have : ¬ ∃ s', step s o = .ok s' := by rintro ⟨s', h⟩; rw [hs] at h; cases h
+      rw [h2 this]; exact hr
+
+/-- THE PROPERTY, with nothing taken from the implementation: after any sequence of enable / disable / grant /
+revoke calls on a fresh store, `has_role` answers `true` exactly for the pairs in the set of grants whose role
+is enabled, where the set of grants, the enabled flags AND the success or failure of every call are those of the
+abstract specification `absRun` (which calls fail is decided from the abstract state: enabling an enabled role,
+a 33rd role, disabling a disabled role, granting on a missing/disabled role or a held grant, a 65th member,
+revoking an absent grant). -/
+theorem history_set_semantics (ops : List (Op K A)) (a : A) (r : K) :
+    hasRole (run (St.empty : St K A) ops) a r = .ok true ↔
+      ((absRun (Abs.empty : Abs K A) ops).enabled r = true ∧ (absRun (Abs.empty : Abs K A) ops).grants a r = true) := by
+  have h := abs_run_related ops (St.empty : St K A) Abs.empty rel_empty inv_empty
+  rw [hasRole_spec, h.enabled r, h.grants a r]
+
+/-- … and call by call: the implementation accepts a call exactly when the specification does -/
+theorem history_success_agrees (ops : List (Op K A)) (o : Op K A) :
+    succeeds (run (St.empty : St K A) ops) o = (absStep (absRun (Abs.empty : Abs K A) ops) o).isSome := by
+  have hrel := abs_run_related ops (St.empty : St K A) Abs.empty rel_empty inv_empty
+  have hinv := inv_run ops (inv_empty (K := K) (A := A))
+  obtain ⟨h1, h2⟩ := abs_simulates _ _ o hrel hinv
+  unfold succeeds
+  cases hs : step (run (St.empty : St K A) ops) o with
+  | ok s' => obtain ⟨x', hx, _⟩ := h1 s' hs; simp [hx]
+  | error e =>
+    have : ¬ ∃ s', step (run (St.empty : St K A) ops) o = .ok s' := by rintro ⟨s', h⟩; rw [hs] at h; cases h
+    simp [h2 this]
+
 end
 
 /-! ### non-vacuity (concrete stores; roles are strings, addresses numbers) -/
@@ -554,5 +788,15 @@ example : ∃ s', grant ex1 8 "KEEPER" = .ok s' :=
 example : ∃ s', enableRole ex1 "ADMIN" = .ok s' := (enable_succeeds_iff ex1 "ADMIN").2 ⟨by decide, .inl (by decide)⟩
 example : ∃ s', disableRole ex1 "KEEPER" = .ok s' := (disable_succeeds_iff ex1 "KEEPER").2 (.inl (by decide))
 example : ¬ ∃ s', revoke ex1 8 "KEEPER" = .ok s' := by rw [revoke_succeeds_iff]; decide
+
+/-! the abstract specification agrees with the implementation on a concrete history (non-vacuity of
+`history_set_semantics` / `history_success_agrees`; `absRun` is a specification, not a program) -/
+example : (absRun (Abs.empty : Abs String Nat) [.enable "K", .grant 7 "K", .grant 7 "K", .disable "K", .enable "K"]).enabled "K" = true ∧
+    (absRun (Abs.empty : Abs String Nat) [.enable "K", .grant 7 "K", .grant 7 "K", .disable "K", .enable "K"]).grants 7 "K" = true :=
+  (history_set_semantics [.enable "K", .grant 7 "K", .grant 7 "K", .disable "K", .enable "K"] 7 "K").1 (by decide)
+example : (absStep (absRun (Abs.empty : Abs String Nat) [.enable "K", .grant 7 "K"]) (.grant 7 "K")).isSome = false := by
+  rw [← history_success_agrees]; decide
+example : (absStep (absRun (Abs.empty : Abs String Nat) [.enable "K", .grant 7 "K"]) (.revoke 7 "K")).isSome = true := by
+  rw [← history_success_agrees]; decide
 
 end Gmx.C18
